@@ -199,3 +199,29 @@ class LexerModel:
         if d["args"]:
             return None
         return t.replace("{{", "{").replace("}}", "}")
+
+
+def state_step_folds(syn):
+    """State::space and State::newline folded (rules/smalleval.py) over a symbolic lexer state, once with and once without a token on
+    the current line and for two indentation counts. -> ({(fn, token_this_line, line_indent): state after the call}, [uncovered branches]).
+    Raises NoEval when a function leaves the modelled fragment."""
+    import copy
+    from .smalleval import SmallEval
+    sp = syn.one_fn("space", impl_of="State")
+    nl = syn.one_fn("newline", impl_of="State")
+    meths = {f["name"]: f for f in syn.fns if f["mod"] == "common::position" and f.get("impl_of") and f.get("body") and not f.get("impl_trait") and
+             f["sig"]["inputs"] and f["sig"]["inputs"][0].get("pat", {}).get("name") == "self"}
+    local = {f["name"]: f for f in syn.fns if f["mod"] == sp["mod"] and f.get("body") and (f.get("impl_of") is None or
+             ((f.get("impl_of") or "").strip() == "State" and not f.get("impl_trait") and f["sig"]["inputs"] and f["sig"]["inputs"][0].get("pat", {}).get("name") != "self"))}
+    mk = {"CaretPos::new": lambda l_, p_: {"line": l_, "pos": p_}, "Lex::new": lambda a_, b_: ("lex", copy.deepcopy(a_), b_),
+          "i32::from": lambda b: int(b), "usize::from": lambda b: int(b)}
+    ev = SmallEval(funcs=mk, local_fns=local)
+    ev.local_methods = dict(meths)
+    out = {}
+    for fn in (sp, nl):
+        for flag in (False, True):
+            for li in (1, 5):
+                st = {"__struct__": "State", "pos": {"line": 3, "pos": 7}, "newlines": ("list", []), "token_this_line": flag, "line_indent": li, "cur_indent": 1}
+                ev.call(fn, [st])
+                out[(fn["name"], flag, li)] = st
+    return out, ev.uncovered(only={"space", "newline"})
